@@ -789,9 +789,13 @@ def function_endings_family(quick):
         for e in ends:
             if e == "volgende_":
                 body = "k += 1; t += 1; als k > 3 { stop } als k > 1 { volgende } t += 10"
+                lasts.append("stel k = 0; zolang %s { %s }" % (cond, body))
             else:
-                body = "k += 1; t += 1; als k > 3 { stop } %s" % e
-            lasts.append("stel k = 0; zolang %s { %s }" % (cond, body))
+                # the loop is left by `stop` in its first / a later round, or by what its body ends in
+                for thr in (0, 3):
+                    body = "k += 1; t += 1; als k > %d { stop } %s" % (thr, e)
+                    lasts.append("stel k = 0; zolang %s { %s }" % (cond, body))
+                lasts.append("stel k = 0; zolang %s { k += 1; als k == 2 { stop } als k > 5 { antwoord 0 - 1 } anders { als k == 1 { volgende } anders { antwoord k } } }" % cond)
     for e in ("antwoord 5", "t = t + 1", "als ja { antwoord 1 } anders { antwoord 2 }", "als t > 100 { antwoord 1 }", "{ { antwoord 3 } }", "stel loc = 4", "als nee { 1 } anders als ja { antwoord 8 } anders { 9 }", "functie binnen() { antwoord 11 } binnen()", "[t]", "zolang nee { antwoord 1 }"):
         lasts.append(e)
     out = []
